@@ -237,7 +237,6 @@ _ATOM = re.compile(r'([^\[\]()/\\|<>\s]+)(?:\[([^\[\]]+)\])?')
 
 def parse_cat(text):
     """-> ('atom', base, feature|None) | ('fn', left, slash, right); raises CatError"""
-    s = text
     pos = [0]
 
     def operand():
@@ -264,8 +263,9 @@ def parse_cat(text):
                 raise CatError('two unbracketed slashes at one level in %r' % text)
             return ('fn', left, sl, right)
         return left
-    if not s or s != s.strip():
-        raise CatError('empty or padded category %r' % text)
+    s = text.replace(' ', '')     # blanks never change a category's value (C05)
+    if not s:
+        raise CatError('empty category %r' % text)
     c = cat()
     if pos[0] != len(s):
         raise CatError('trailing text at %d in %r' % (pos[0], text))
